@@ -10,6 +10,18 @@ impl HasKey<Public> for V4 {
     type Key = PublicKey;
 
     fn decode(bytes: &[u8]) -> Result<PublicKey, PasetoError> {
+        // libsodium's from_bytes only checks the length. Adding the identity fails for encodings
+        // that are not on the curve and otherwise returns the point itself: reject the former,
+        // and the identity, as public keys.
+        const IDENTITY: [u8; 32] = {
+            let mut p = [0; 32];
+            p[0] = 1;
+            p
+        };
+        match libsodium_rs::crypto_core::ed25519::add(bytes, &IDENTITY) {
+            Ok(point) if point != IDENTITY => {}
+            _ => return Err(PasetoError::InvalidKey),
+        }
         crypto_sign::PublicKey::from_bytes(bytes)
             .map(PublicKey)
             .map_err(|_| PasetoError::InvalidKey)
